@@ -224,3 +224,147 @@ def cold_copy(regs, R):
 
 def ids(xs):
     return tuple(id(x) for x in xs)
+
+
+# ---------------------------------------------------------------------------------------------------------------------
+# "the first entry point called after a mutation": every entry point x mutation kind x mutated chain member x flavour,
+# each on a fresh chain whose caches were warmed through ALL entry points; compared with a cold chain (C05's statement).
+FIRST_ENTRY = ['lookup', 'lookup1', 'lookupAll', 'names', 'queryAdapter', 'adapter_hook', 'queryMultiAdapter',
+               'subscriptions', 'subscribers']
+FIRST_MUTATION = ['none', 'replace', 'unregister', 'register-specific', 'register-named', 'subscribe', 'unsubscribe',
+                  'rebase-drop', 'rebase-swap']
+
+
+class _Tagged:
+    def __init__(self, tag):
+        self.tag = tag
+
+    def __call__(self, *a):
+        return (self.tag,) + tuple(id(x) for x in a)
+
+    def __repr__(self):
+        return 'factory<%s>' % self.tag
+
+
+def _first_world(flavour, depth):
+    R = AdapterRegistry if flavour == 'A' else VerifyingAdapterRegistry
+    IReq = InterfaceClass(common.uname('IReq'), (Interface,), {})
+    IP = InterfaceClass(common.uname('IP'), (Interface,), {})
+    K = type(common.uname('KF'), (object,), {})
+    classImplements(K, IReq)
+    ob = K()
+    chain = [R()]
+    for _ in range(depth - 1):
+        chain.append(R((chain[-1],)))
+    spare = R()
+    spare.register((IReq,), IP, '', _Tagged('spare'))
+    spare.subscribe((IReq,), IP, _Tagged('spare-sub'))
+    root = chain[0]
+    root.register((IReq,), IP, '', _Tagged('a0'))
+    root.register((IReq,), IP, 'n', _Tagged('n0'))
+    root.subscribe((IReq,), IP, _Tagged('s0'))
+    root.subscribe((IReq,), IP, _Tagged('s1'))
+    return R, IReq, IP, K, ob, chain, spare
+
+
+def _first_call(r, ep, ob, IP, name):
+    """the observation of one entry point: its (normalised) result, or the type of the exception it raised"""
+    try:
+        return _first_call_raw(r, ep, ob, IP, name)
+    except Exception as e:            # an exception is an observation, too (compared with the cold chain)
+        return ('raised', type(e).__name__)
+
+
+def _first_call_raw(r, ep, ob, IP, name):
+    spec = providedBy(ob)
+    if ep == 'lookup':
+        return getattr(r.lookup((spec,), IP, name), 'tag', None)
+    if ep == 'lookup1':
+        return getattr(r.lookup1(spec, IP, name), 'tag', None)
+    if ep == 'lookupAll':
+        return tuple(sorted((n, getattr(v, 'tag', repr(v))) for n, v in r.lookupAll((spec,), IP)))
+    if ep == 'names':
+        return tuple(sorted(r.names((spec,), IP)))
+    if ep == 'queryAdapter':
+        return (r.queryAdapter(ob, IP, name) or (None,))[0]
+    if ep == 'adapter_hook':
+        return (r.adapter_hook(IP, ob, name) or (None,))[0]
+    if ep == 'queryMultiAdapter':
+        return (r.queryMultiAdapter((ob,), IP, name) or (None,))[0]
+    if ep == 'subscriptions':
+        return tuple(getattr(v, 'tag', repr(v)) for v in r.subscriptions((spec,), IP))
+    if ep == 'subscribers':
+        return tuple(x[0] for x in r.subscribers((ob,), IP))
+    raise ValueError(ep)
+
+
+def _first_mutate(kind, target, IReq, IP, K, chain, spare, leaf):
+    if kind == 'none':
+        return
+    if kind == 'replace':
+        target.register((IReq,), IP, '', _Tagged('a-new'))
+    elif kind == 'unregister':
+        target.unregister((IReq,), IP, '')
+    elif kind == 'register-specific':
+        target.register((implementedBy(K),), IP, '', _Tagged('a-specific'))
+    elif kind == 'register-named':
+        target.register((IReq,), IP, 'n', _Tagged('n-new'))
+    elif kind == 'subscribe':
+        target.subscribe((IReq,), IP, _Tagged('s-new'))
+    elif kind == 'unsubscribe':
+        target.unsubscribe((IReq,), IP)
+    elif kind == 'rebase-drop':
+        leaf.__bases__ = ()
+    elif kind == 'rebase-swap':
+        leaf.__bases__ = (spare,)
+
+
+def first_after_mutation_one(flavour, depth, mi, kind, ep, name):
+    """[] or [(signature, description)]"""
+    R, IReq, IP, K, ob, chain, spare = _first_world(flavour, depth)
+    leaf = chain[-1]
+    # warm every cache of the leaf through every entry point (lookupAll before subscriptions with the same key on purpose)
+    for w in FIRST_ENTRY:
+        for nm in ('', 'n'):
+            _first_call(leaf, w, ob, IP, nm)
+    target = chain[mi]
+    if kind in ('replace', 'unregister', 'register-named', 'unsubscribe') and target is not chain[0]:
+        # make the mutation effective at this level too: the level gets its own registration first, caches re-warmed
+        target.register((IReq,), IP, '', _Tagged('a%d' % mi))
+        target.register((IReq,), IP, 'n', _Tagged('n%d' % mi))
+        target.subscribe((IReq,), IP, _Tagged('s%d' % mi))
+        for w in FIRST_ENTRY:
+            for nm in ('', 'n'):
+                _first_call(leaf, w, ob, IP, nm)
+    _first_mutate(kind, target, IReq, IP, K, chain, spare, leaf)
+    got = _first_call(leaf, ep, ob, IP, name)
+    cold = cold_copy([spare] + chain, R)[id(leaf)]
+    want = _first_call(cold, ep, ob, IP, name)
+    if got != want:
+        return [('first-after-mutation:%s:%s' % (ep, kind),
+                 '%s chain of %d, caches warmed through every entry point, then %r on chain member %d, then %s(name=%r) as the '
+                 'FIRST call: answers %r, a chain that performed no earlier lookups answers %r'
+                 % ('AdapterRegistry' if flavour == 'A' else 'VerifyingAdapterRegistry', depth, kind, mi, ep, name, got, want))]
+    return []
+
+
+def first_after_mutation(ctx, module):
+    """run the whole product; violations are reported through ctx with a replay script of `module`"""
+    for flavour, depth in itertools.product('AV', (2, 3)):
+        for mi, kind, ep, name in itertools.product(range(depth), FIRST_MUTATION, FIRST_ENTRY, ('', 'n')):
+            if ctx.too_many():
+                return
+            if kind.startswith('rebase') and mi != depth - 1:
+                continue
+            args = (flavour, depth, mi, kind, ep, name)
+            ctx.case(('first-after-mutation',) + args)
+            for sig, what in first_after_mutation_one(*args):
+                ctx.violation(sig, what, 'from falsify.regcommon import replay_first\nreplay_first(*%r)\n' % (args,))
+
+
+def replay_first(*args):
+    import sys
+    bad = first_after_mutation_one(*args)
+    for sig, what in bad:
+        print('violated:', sig, what)
+    sys.exit(1 if bad else 0)
